@@ -35,6 +35,8 @@ def scenarios(ctx):
         fam = rng.choice(["single", "two", "trio", "quartet", "trio+1"])
         ns = {"single": 1, "two": 2, "trio": 3, "quartet": 4, "trio+1": 4}[fam]
         ped = {"trio": [["s1", "s2", "s3"]], "quartet": [["s1", "s2", "s3"], ["s1", "s2", "s4"]], "trio+1": [["s1", "s2", "s3"]]}.get(fam, [])
+        if ped and rng.random() < 0.4:
+            ped = PW.shuffle_roles(rng, ped, [f"s{k + 1}" for k in range(ns)])
         w = PW.rand_world(rng, nsamples=ns, nchroms=rng.choice([1, 2, 2, 3]), ped=ped, max_sites=rng.choice([4, 7]),
                           het_prob=0.8, depth=(1, 3), kinds=("snv", "snv", "ins", "del"))
         o = {"tag": rng.choice(["PS", "HP"]), "ped": bool(ped),
